@@ -548,6 +548,12 @@ def gen_section(rng, ident, refs, first, deprecated, force_union=None):
         n = gen_name(rng, used)
         used.append(n)
         attrs.insert(rng.randrange(0, len(attrs) + 1), gen_const(rng, n))
+    if used and rng.random() < 0.2:
+        # names are case-sensitive: a case variant of an existing name is another attribute
+        n = rng.choice(used).swapcase()
+        if n.lower() not in [u.lower() for u in used if u.swapcase() != n] and n not in used and not _py_reserved(n.lower()):
+            used.append(n)
+            attrs.insert(rng.randrange(0, len(attrs) + 1), gen_const(rng, n) if rng.random() < 0.4 else ["field", gen_field_tx(rng, refs), n])
     if not union:
         for _ in range(rng.choice([0, 0, 0, 1, 2])):
             attrs.insert(rng.randrange(0, len(attrs) + 1), ["pad", rng.choice([1, 3, 8, 32, 64, rng.randrange(1, 65)])])
@@ -1348,6 +1354,19 @@ def boundaries(rng):
         ("deprecated", [DE, SE]), ("sealed,deprecated", [SE, DE]), ("field,deprecated", [F, DE, SE]), ("const,deprecated", [K, DE, SE]),
         ("pad,deprecated", [["pad", 1], DE, SE]), ("deprecated,deprecated", [DE, DE, SE]), ("deprecated,field,deprecated", [DE, F, DE, SE]),
         ("union,deprecated", [UN, DE, F, G2, SE]), ("deprecated,union", [DE, UN, F, G2, SE]), ("assert,deprecated", [["dir", "assert", ["bool", True]], DE, SE]),
+        ("assert-true", [["dir", "assert", ["bool", True]], SE]), ("assert-false", [["dir", "assert", ["bool", False]], SE]),
+        ("assert-none", [["dir", "assert", None], SE]), ("assert-int", [["dir", "assert", ["rat", 1, 1]], SE]),
+        ("assert-zero", [["dir", "assert", ["rat", 0, 1]], SE]), ("assert-str", [SE, ["dir", "assert", ["str", "true"]]]),
+        ("assert-set", [SE, ["dir", "assert", ["set"]]]), ("sealed-expr", [["dir", "sealed", ["bool", True]]]),
+        ("union-expr", [["dir", "union", ["rat", 2, 1]], F, G2, SE]), ("deprecated-expr", [["dir", "deprecated", ["bool", True]], SE]),
+        ("extent-none", [F, ["dir", "extent", None]]), ("extent-bool", [F, ["dir", "extent", ["bool", True]]]),
+        ("extent-str", [F, ["dir", "extent", ["str", "64"]]]), ("extent-frac", [F, ["dir", "extent", ["rat", 129, 2]]]),
+        ("extent-frac-int", [F, ["dir", "extent", ["rat", 128, 2]]]), ("extent-div0", [F, ["dir", "extent", ["rat", 64, 0]]]),
+        ("print-div0", [SE, ["dir", "print", ["rat", 1, 0]]]), ("print-any", [SE, ["dir", "print", ["set"]], ["dir", "print", None]]),
+        ("unknown", [SE, ["dir", "sealedd", None]]), ("unknown-case", [["dir", "Sealed", None]]),
+        ("case-variant-names", [F, ["field", ["s", ["bool"]], "A"], SE]), ("same-names", [F, ["field", ["s", ["bool"]], "a"], SE]),
+        ("field-const-same", [F, ["const", ["s", ["bool"]], "a", ["bool", True]], SE]),
+        ("field-const-case", [F, ["const", ["s", ["bool"]], "A", ["bool", True]], SE]),
     ]
     for tag, sec in table:
         for where in ("message", "request", "response"):
